@@ -219,9 +219,13 @@ class ModelPool:
                 if score(s) > score(lowest) * (1 + F(1, 10 ** 9)) + F(1, 10 ** 12):
                     problems.append(("C11:survivor-higher-score", f"pool {self.pool_id}: {s.cid} (score {float(score(s))}) survives while {lowest.cid} (score {float(score(lowest))}) was killed"))
                     break
-            rest_before_last = total - sum((v.usage for v in vs[1:]), F(0))
+            # minimal: the victim killed last (one of the lowest scorers; among equal scores any order is allowed) was still
+            # needed, i.e. with all other victims gone the usage did not fit yet
+            tied_lowest = [v for v in victims if score(v) <= score(lowest) * (1 + F(1, 10 ** 9)) + F(1, 10 ** 12)]
+            all_victims = sum((v.usage for v in victims), F(0))
+            rest_before_last = max(total - (all_victims - v.usage) for v in tied_lowest)
             if not rest_before_last > self.cap_ram - self.tau:
-                problems.append(("C11:not-minimal", f"pool {self.pool_id}: killing {lowest.cid} was not needed: usage without the other victims {float(rest_before_last)} <= capacity {float(self.cap_ram)}"))
+                problems.append(("C11:not-minimal", f"pool {self.pool_id}: killing {[v.cid for v in tied_lowest]} was not needed: usage without the other victims {float(rest_before_last)} <= capacity {float(self.cap_ram)}"))
             remaining = total - sum((v.usage for v in victims), F(0))
             if remaining > self.cap_ram + self.tau:
                 problems.append(("C11:insufficient", f"pool {self.pool_id}: usage after kills {float(remaining)} still above capacity {float(self.cap_ram)}"))
